@@ -154,6 +154,13 @@ def curated_programs() -> list[dict]:
                          "plain": {"units": {}, "vers": [_t("leaf", 2)]},
                          "bad": {"units": {"r": 1}, "vers": [_t("fail"), _t("leaf", 3)]}},
                "plan": [RUN, RUN]})
+    # 14. everything cached, then one task is edited into one that names an unknown executor: the dry run
+    #     must not stop "early" (it fails like the real run, which executes nothing)
+    ps.append({"ns": "cur14", "res": ["r"], "limits": {"r": 1}, "root": {"t": "main", "arg": 0},
+               "tasks": {"main": {"units": {}, "vers": [_t("calls", 0, [_c("leaf", "c", 1), _c("ghost", "c", 2)])]},
+                         "leaf": {"units": {"r": 1}, "vers": [_t("leaf", 1)]},
+                         "ghost": {"units": {}, "vers": [_t("leaf", 5), _t("noexec", 5)]}},
+               "plan": [RUN, {"k": "edit", "t": "ghost"}, DRY, RUN]})
     return [progen.normalize(p) for p in ps]
 
 
